@@ -804,7 +804,7 @@ def _group_func_wrap(
     values, orig_types = zip(*list(map(_cast_timestamps_to_ints, values)))
     orig_type = orig_types[0]
 
-    if reduce_func_name == "sum_squares":
+    if "sum_squares" in reduce_func_name:
         values = [v.astype(float) for v in values]
 
     if values_are_chunked:
@@ -813,6 +813,8 @@ def _group_func_wrap(
             # Unchunk the values and follow this path
             values = np.concatenate(values)
             values_are_chunked = False
+        else:
+            values = NumbaList(values)
     else:
         values = values[0]
 
